@@ -30,6 +30,9 @@ MustFail(o) == o.tag.prop = "C06" /\ GenerationFails(EffectiveExts(o.tag.hasProf
 Judge(o) ==
   LET k == EntOf(o) IN
   IF MustFail(o) THEN (IF o.result \in {"failed", "refused"} THEN {} ELSE {"content-less extension was not refused: run " \o o.result})
+  \* C05, a signature algorithm (given or defaulted) that does not fit the key that has to sign: the run may - by C01 must - fail;
+  \* when a certificate comes out all the same, its identifiers are still judged against the configuration
+  ELSE IF o.result # "ok" /\ o.tag.prop = "C05" /\ "misfit" \in DOMAIN o.tag /\ o.tag.misfit /\ o.result \in {"failed", "refused"} THEN {}
   ELSE IF o.result # "ok" THEN {"run " \o o.result}
   ELSE IF k = 0 \/ o.ents[k].der = <<>> THEN {"no certificate for the entity under test"}
   ELSE LET e == o.ents[k]
